@@ -17,6 +17,7 @@ def plan(tier, seed):
     jobs.append(ch("C09", "vf/pyshim/h_c08.py", "h_overwrite_key_text", t, ["util.path_string",
                                                                             "writer.overwrite (key text expression)"]))
     jobs.append(ch("C09", F, "h_part_ids", t, ["api.part_ids"]))
+    jobs.append(ch("C09", "vf/pyshim/h_c09.py", "h_path_string_sequence", t, ["util.path_string"]))
     jobs.append(ch("C09", F, "h_handle_after_remove", t, ["api.ParquetFile.remove_row_groups", "api.ParquetFile._set_attrs",
                                                           "api.ParquetFile.statistics", "api.statistics"]))
     jobs.append(ch("C09", "vf/pyshim/h_c08.py", "h_partition_rows", t, ["writer.partition_on_columns"]))
